@@ -10,7 +10,7 @@ TRUST = ("Trusted base: rustc nightly front end (type check, MIR construction, c
 CLAIMED = {
     "C08": dict(
         technique="static analysis: number-theoretic certificates on compiler-evaluated constants + interval abstract interpretation of MIR (type invariant value<PRIME at every constructor site) + operator census on padded bit arrays + who-may-call census of the inversion routines",
-        text="Every PrimeField modulus is certified prime and every GaloisField polynomial irreducible of degree BITS (so the types are fields), the value<PRIME representation invariant is proved inductive over every constructor site of each prime-field newtype for all inputs (incl. 0, p-1, u128::MAX), no arithmetic in those bodies can overflow, padded bit arrays keep padding clean under Not, accumulator interval and DZKP constants are checked; multiplicative inverses are taken only by a frozen set of users whose argument is a non-zero constant or for which zero is refused (no derived helper divides by something an input can make vanish, e.g. a Lagrange row at an input point). Field axioms then follow from modular arithmetic on canonical representatives (argument, not machine-checked).",
+        text="Every PrimeField modulus is certified prime and every GaloisField polynomial irreducible of degree BITS (so the types are fields), the value<PRIME representation invariant is proved inductive over every constructor site of each prime-field newtype for all inputs (incl. 0, p-1, u128::MAX), no arithmetic in those bodies can overflow, padded bit arrays keep padding clean under Not, accumulator interval and DZKP constants are checked; multiplicative inverses are taken only by a frozen set of users whose argument is a non-zero constant or for which zero is refused (no derived helper divides by something an input can make vanish, e.g. a Lagrange row at an input point); in the build with the pclmulqdq target feature (extraction configuration X) the lanes of the hardware carry-less product are widened without sign extension. Field axioms then follow from modular arithmetic on canonical representatives (argument, not machine-checked).",
         ref="§3 C08"),
 }
 
@@ -31,7 +31,7 @@ CLAIMED["C14"] = dict(
 
 CLAIMED["C15"] = dict(
     technique="static analysis: method whitelist (who-may-call) on the active deque, dominator-based guard polarity, loop-shape and poll-the-rest pairing over the MIR CFG, WAKE-1 may-analysis with one reasoned infeasible-path exception whose premises are checked",
-    text="Output order equals input order because the active window is only ever used as a FIFO (push_back/pop_front) and the head is popped only when its own check_ready is true; while the head is pending every other active item is polled before Pending is returned; the refill loop keeps exactly `capacity` items in flight and pushes the item it polled; Pending is never returned without a registered waker (one frozen exception: empty window and source not done, justified by NonZero capacity and checked); validated_seq_join chains validate_record(own index) to every item and keeps the validator alive; parallel_join is try_join_all (single-threaded build) or, in the spawner build, awaits one task result at a time and returns an error as soon as the result carrying it arrives (no further suspension point in between), pushing Ok values in arrival order. Decides queue discipline, not liveness over completion orders.",
+    text="Output order equals input order because the active window is only ever used as a FIFO (push_back/pop_front) and the head is popped only when its own check_ready is true; while the head is pending every other active item is polled before Pending is returned; the refill loop keeps exactly `capacity` items in flight and pushes the item it polled, and that capacity is the constructor's `active` parameter itself (not a smaller number derived from a size hint or a cap); Pending is never returned without a registered waker (one frozen exception: empty window and source not done, justified by NonZero capacity and checked); validated_seq_join chains validate_record(own index) to every item and keeps the validator alive; parallel_join is try_join_all (single-threaded build) or, in the spawner build, awaits one task result at a time and returns an error as soon as the result carrying it arrives (no further suspension point in between), pushing Ok values in arrival order. Decides queue discipline, not liveness over completion orders.",
     ref="§3 C15")
 
 CLAIMED["C16"] = dict(
